@@ -550,10 +550,7 @@ def llh2xyz(lat, lon, ellht=0, ellipsoid=grs80):
     lat = radians(angular_typecheck(lat))
     lon = radians(angular_typecheck(lon))
     # Calculate Ellipsoid Radius of Curvature in the Prime Vertical - nu
-    if lat == 0:
-        nu = grs80.semimaj
-    else:
-        nu = ellipsoid.semimaj/(sqrt(1 - ellipsoid.ecc1sq * (sin(lat)**2)))
+    nu = ellipsoid.semimaj/(sqrt(1 - ellipsoid.ecc1sq * (sin(lat)**2)))
     # Calculate x, y, z
     x = (nu + ellht) * cos(lat) * cos(lon)
     y = (nu + ellht) * cos(lat) * sin(lon)
